@@ -151,7 +151,7 @@ func checkC04(P *Program, r *Result, tier string) {
 		fa := A.fa(fn)
 		n := fa.expand(fn.Params[1])
 		nSucc := 0
-		for _, rc := range retCases(fn) {
+		for _, rc := range retCasesErr(fn) {
 			if !readerCaseSucceeds(fa, rc) {
 				continue // error path: FAIL-PURE / SHORT⇒ERR
 			}
@@ -284,7 +284,7 @@ func checkC04(P *Program, r *Result, tier string) {
 	for _, name := range []string{"Next", "Peek", "Skip"} {
 		fn := ms[name]
 		fa := A.fa(fn)
-		for _, rc := range retCases(fn) {
+		for _, rc := range retCasesErr(fn) {
 			if readerCaseSucceeds(fa, rc) {
 				continue
 			}
